@@ -73,8 +73,8 @@ def Equil.anyEffect (e : Equil α) : Bool := e.keys.any (fun k => e.net k != 0)
     left is `any_effect` (`ValueError`). -/
 def construct (isDict : Bool) (reac prod : Stoich) (K : Option α) (inactReac inactProd : Stoich) :
     Except String (Equil α) :=
-  let e : Equil α := { reac := initStoich isDict reac, prod := initStoich isDict prod,
-                    inactReac := initStoich isDict inactReac, inactProd := initStoich isDict inactProd, K := K }
+  let e : Equil α := ⟨initStoich isDict reac, initStoich isDict prod,
+    initStoich isDict inactReac, initStoich isDict inactProd, K⟩
   if e.anyEffect then .ok e else .error "ValueError"
 
 /-- conversion of user supplied integer coefficients; `check_all_positive` raises for `v < 0` (0 is accepted) -/
@@ -171,15 +171,15 @@ inductive EqExpr (α : Type) where
 /-- evaluation with the operators of the real class (Python evaluates the left operand first) -/
 def EqExpr.eval : EqExpr α → Except String (Equil α)
   | .leaf e => .ok e
-  | .scale n t => do let x ← t.eval; rmul n x
-  | .neg t => do let x ← t.eval; neg x
+  | .scale n t => do let x ← t.eval; Equilibria.rmul n x
+  | .neg t => do let x ← t.eval; Equilibria.neg x
   | .add a b => do let x ← a.eval; let y ← b.eval; Equilibria.add x y
   | .sub a b => do let x ← a.eval; let y ← b.eval; Equilibria.sub x y
 
 end ops
 
 /-- the operands of an expression tree with the integer each one is multiplied by in total -/
-def EqExpr.terms : EqExpr α → List (Eq α × Int)
+def EqExpr.terms : EqExpr α → List (Equil α × Int)
   | .leaf e => [(e, 1)]
   | .scale n t => t.terms.map (fun p => (p.1, n * p.2))
   | .neg t => t.terms.map (fun p => (p.1, -1 * p.2))
@@ -229,17 +229,22 @@ def intdiv (p q : Int) : Int :=
   let r := Int.fdiv p q
   if r < 0 ∧ q * r ≠ p then r + 1 else r
 
+/-- `intdiv` as called from Python: `p // 0` raises -/
+def intdivPy (p q : Int) : Except String Int :=
+  if q = 0 then .error "ZeroDivisionError" else .ok (intdiv p q)
+
 /-- the loop of `Equilibrium.cancel` (l. 1297-1304) over `keys = rxn.keys()` in the iteration order
     `ks` of that set; `none` is `float('inf')`; `min(candidate, r, key=abs)` keeps the earlier one on ties -/
 def cancelWith (self rxn : Equil α) (ks : List String) : Except String (Option Int) :=
   ks.foldlM (fun (cand : Option Int) k =>
     let v1 := self.net k
     let v2 := rxn.net k
-    if v2 = 0 then (.error "ZeroDivisionError" : Except String (Option Int)) else
-    let r := intdiv (-v1) v2
-    match cand with
-    | none => .ok (some r)
-    | some c => if r.natAbs < c.natAbs then .ok (some r) else .ok (some c)) none
+    match intdivPy (-v1) v2 with
+    | .error s => (.error s : Except String (Option Int))
+    | .ok r =>
+      match cand with
+      | none => .ok (some r)
+      | some c => if r.natAbs < c.natAbs then .ok (some r) else .ok (some c)) none
 
 /-! ### as_reactions -/
 
@@ -274,7 +279,7 @@ def asReactions [Mul α] [Inv α] [Div α] [NatCast α] [DecidableEq α]
         match e.K with
         | none => .error "TypeError"                                -- `None * c0 ** …`
         | some K =>
-            if K * c = ((0 : Nat) : α) then .error "ZeroDivisionError" else pure (f / (K * c), f)
+            if K * c = ((0 : Nat) : α) then .error "ZeroDivisionError" else pure (f, f / (K * c))
     | some _, some _ => .error "ValueError")
   if e.anyEffect then
     pure ({ reac := e.reac, prod := e.prod, inactReac := e.inactReac, inactProd := e.inactProd, k := kf' },
